@@ -13,7 +13,7 @@ import valgen
 import xv
 from xv import log
 
-CORPUS_VERSION = "14"
+CORPUS_VERSION = "15"
 
 BOUNDARY = [0, 1, 2, 3, 0xffff, 0x10000, 0x7fffffff, 0x80000000, 0xfffffffe, 0xffffffff]
 
@@ -141,6 +141,9 @@ def quick_specs(seed, tier):
         "union bdef2 switch (bool b) { default: void; case FALSE: void; };\n"
         "union cdef switch (unsigned int k) { case 1: default: void; case SEVEN: void; case 9: unsigned hyper uh; };\n"
         "struct replies { reply r<>; dfirst d<>; dfirst2 e[2]; cdef c; bdef2 b; };\n",
+        # a counted array reachable from its own element type (finding F15: every nesting level
+        # reserves min(count, remaining) elements, so the total is quadratic in the input)
+        "struct tnest { unsigned int v; tnest kids<>; };\n",
     ]
     out += [("fixed", s) for s in fixed]
     out += [("elem", s) for s in ELEM_SPECS]
@@ -292,6 +295,16 @@ def special_cases(obs, types, failed_idx, rng):
                 for off, sfx in ((0, b""), (3, b"\x01"), (0, b"\x00" * 12)):
                     out.append({"spec": i, "type": "holder0", "off": off, "input": valgen.enc(x) + sfx,
                                 "kind": "valid" if not sfx else "valid_ctx", "x": x, "expect": valgen.expected_line(x, off)})
+        if "tnest" in types[i]:
+            for depth in (4, 32, 256, 1000):
+                out.append({"spec": i, "type": "tnest", "off": 0, "input": struct.pack(">II", 7, 0x00ffffff) * depth, "kind": "nest"})
+            # and a well-formed chain of the same depth
+            for depth in (4, 32, 256):
+                x = ("Struct", "tnest", [("U32", depth), ("ArrV", [])])
+                for k in range(depth):
+                    x = ("Struct", "tnest", [("U32", k), ("ArrV", [x])])
+                out.append({"spec": i, "type": "tnest", "off": 0, "input": valgen.enc(x), "kind": "valid", "x": x,
+                            "expect": valgen.expected_line(x, 0)})
         if "zs" in types[i]:
             for cnt in (3, 0x800):
                 out.append({"spec": i, "type": "zs", "off": 0, "input": struct.pack(">I", cnt) + b"\0" * 8, "kind": "zerosize"})
